@@ -75,6 +75,17 @@ Theorem C13_frames_become_lines_mixed_protocols :
 Proof. exact handle_conn_frames4. Qed.
 Print Assumptions C13_frames_become_lines_mixed_protocols.
 
+(* one connection, any number of frames, each of ANY protocol 0-4 (protocol 0 under the float-text premise) *)
+Theorem C13_frames_become_lines_all_protocols :
+  forall pf frepr,
+    (forall b, pf (frepr b) = Some b) -> (forall b, ~ In 10 (frepr b) /\ ~ In 13 (frepr b)) ->
+    forall fmt6 fmt0 (pss : list (N * list pydp)),
+      Forall (frame_okr frepr) pss ->
+      handle_conn pf fmt6 fmt0 (concat (map (fun pd => frame_of (payload_r frepr pd)) pss))
+      = (concat (map (fun pd => map (fun d => EvLine (line_of fmt6 fmt0 d)) (snd pd)) pss), FinOk).
+Proof. exact handle_conn_frames_all. Qed.
+Print Assumptions C13_frames_become_lines_all_protocols.
+
 (* one frame followed by anything: its lines come first, whatever the rest of the stream does *)
 Theorem C13_frame_then_rest :
   forall pf fmt6 fmt0 f proto ds rest,
